@@ -167,7 +167,19 @@ func main() {
 					}
 				}
 			}
-			for _, v := range []uint64{0, 1, max, max - 1, max >> 1, 0x10000, 0x12345678 & max} {
+			extra := []uint64{0, 1, max, max - 1, max >> 1, 0x10000, 0x12345678 & max}
+			for k := uint(0); k < uint(t.Bits); k++ {
+				extra = append(extra, uint64(1)<<k, (uint64(1)<<k)+1, (uint64(1)<<k)-1, uint64(3)<<k&max)
+			}
+			// every value below 2^16 and the values that share their low 16 bits with a constant
+			for v := uint64(0); v < 1<<16; v++ {
+				extra = append(extra, v)
+			}
+			for _, c := range t.Consts {
+				extra = append(extra, c.Val|1<<16, c.Val|1<<31&max, c.Val+1<<16)
+			}
+			for _, v := range extra {
+				v &= max
 				if !seen[v] {
 					seen[v] = true
 					check(v)
@@ -208,7 +220,7 @@ func init() {
 		ID:      "C20",
 		Level:   "exploration",
 		Workers: 1,
-		Rule: "every integer type declared in types.go (extracted with go/types) and every constant of it: a generated program calls String() on all 256 values of 8-bit types, all 65536 values of 16-bit types, and for wider types on every constant and its neighbours plus 0, 1, max; expected = constant name without the type prefix (any of the names sharing the value), otherwise Type(n). " +
+		Rule: "every integer type declared in types.go (extracted with go/types) and every constant of it: a generated program calls String() on all 256 values of 8-bit types, all 65536 values of 16-bit types, and for wider types on every constant and its neighbours, every value below 2^16, every power of two and its neighbours, and values sharing their low 16 bits with a constant; expected = constant name without the type prefix (any of the names sharing the value), otherwise Type(n). " +
 			"Regeneration: the repository's fitstringer is run (through a driver placed by build overlay) on the sorted type list of types.go and its output compared byte-for-byte with the checked-in types_string.go. distinct = values that are named constants",
 		Assumptions: []string{"Bool (types_man.go) is hand-written and outside the statement"},
 		Run:         runC20,
